@@ -55,7 +55,7 @@ PROPS = {
     ),
 }
 PROBES = {'C04': ['ghost_particles_present', 'periodic_domain', 'two_arrays_different_steppers', 'update_nnps_false', 'second_equation_set',
-                  'py_stage_hook', 'py_hook_injects_particles', 'same_stepper_class_different_parameters', 'py_hook_reads_other_array', 'h_grows_during_step', 'empty_array', 'sourceless_equation_set', 'several_steps', 'noncontiguous_times', 't0_nonzero', 'sim_schedule', 'shipped_stepper', 'history_compared']}
+                  'py_stage_hook', 'py_hook_injects_particles', 'same_stepper_class_different_parameters', 'py_hook_reads_other_array', 'h_grows_during_step', 'empty_array', 'sourceless_equation_set', 'callback_object_with_false_truth_value', 'several_steps', 'noncontiguous_times', 't0_nonzero', 'sim_schedule', 'shipped_stepper', 'history_compared']}
 
 
 def needs_isolation(sc):
@@ -386,7 +386,15 @@ def execute(sc, prop):
             return orig_ud()
         integ.compute_accelerations = ca
         integ.update_domain = ud
-        integ.set_post_stage_callback(lambda t, dt, stage: log.append(('post', t, dt, int(stage))))
+        if int(sc.get('sched_seed', 0)) % 2:
+            # any callable is a legal callback, also one whose truth value is False (here: an empty list subclass)
+            class _Recorder(list):
+                def __call__(self, t, dt, stage):
+                    log.append(('post', t, dt, int(stage)))
+            integ.set_post_stage_callback(_Recorder())
+            probe('callback_object_with_false_truth_value')
+        else:
+            integ.set_post_stage_callback(lambda t, dt, stage: log.append(('post', t, dt, int(stage))))
         _D.REG.clear()
         _D.REG.update({pa.name: pa for pa in arrays})
         for (t0, dt) in steps:
